@@ -234,7 +234,7 @@ PROPS = {
         "units": [
             {"pkg": "./c13", "run": "TestC13Sequential|TestC13SelfRedirect|TestC13FromServiceTags", "shards": 4, "shards_thorough": 16, "timeout": 300},
             {"pkg": "./c13", "run": "TestC13Concurrent", "race": True, "shards": 2, "shards_thorough": 4, "timeout": 300},
-            {"pkg": "./mainpkg", "run": "^TestC13MainWiring", "shards": 2, "shards_thorough": 4, "timeout": 300},
+            {"pkg": "./mainpkg", "run": "^TestC13MainWiring|^TestC13KVOutage", "shards": 2, "shards_thorough": 4, "timeout": 300},
             {"pkg": "./mainpkg", "run": "^TestC13Pipeline", "race": True, "shards": 4, "shards_thorough": 4, "timeout": 400},
         ],
         "rule": ("rapid-generated redirect routes over the documented template forms (https://h$path, https://$host$path, http://h/$path, http://h/bbb$path, http://h/bbb/$path, fixed targets, $host with fixed path; "
@@ -250,7 +250,8 @@ PROPS = {
         "assumptions": COMMON_ASSUME,
     },
     "C12": {
-        "units": [{"pkg": "./c12", "shards": 8, "shards_thorough": 16, "timeout": 300}],
+        "units": [{"pkg": "./c12", "shards": 8, "shards_thorough": 16, "timeout": 300},
+                  {"pkg": "./mainpkg", "run": "^TestC12", "shards": 2, "shards_thorough": 4, "timeout": 300}],
         "rule": ("rapid-generated allow=/deny= lists of 1-6 items (IPv4/IPv6 addresses and CIDR blocks incl. /0, /32, /128, 4-in-6, host bits set; 'ip:' in any case and spacing; malformed items: mask 33/129, "
                  "missing octet, no/unknown type, empty, zone; allow and deny together), peers inside / at both edges of / just outside each block, IPv4, IPv6, 4-in-6 and zone-scoped, X-Forwarded-For chains of 0-4 "
                  "elements (valid, garbage, peer repeated, padded). HTTP decisions through HTTPProxy.ServeHTTP with a hit-counting RoundTripper, TCP through AccessDeniedTCP on a stub conn and end to end through "
